@@ -127,6 +127,19 @@ impl ITri {
         Some((s, b))
     }
 
+    /// Reciprocal depth Σβ of the triangle's plane at an NDC point, without
+    /// any inside test (None for degenerate triangles).
+    pub fn s_at(&self, ndc: P2) -> Option<f64> {
+        let mi = self.minv.as_ref()?;
+        Some((0..3).map(|i| mi[i][0] * ndc.0 + mi[i][1] * ndc.1 + mi[i][2]).sum())
+    }
+
+    /// Largest reciprocal depth over the visible polygon (attained at one of
+    /// its vertices, the reciprocal depth being affine in screen space).
+    pub fn s_max_visible(&self, vp: &Vp) -> f64 {
+        self.poly.iter().filter_map(|p| self.s_at(vp.to_ndc(*p))).fold(0.0, f64::max)
+    }
+
     /// Point-in-visible-polygon in screen space (the second, independent
     /// formulation; used to cross-check `eval`).
     pub fn poly_contains(&self, p: P2) -> bool {
